@@ -54,6 +54,35 @@ pub fn gen(rng: &mut Rng, _index: u64) -> String {
                        else { format!("{} {} {}", op, proto::geom(&b), proto::geom(&a)) };
             }
         }
+        // a closed line string with redundant collinear vertices on its sides and a Line lying along one side, from
+        // the middle of one edge across one or more vertices into the middle of a later edge (for every ring start
+        // vertex): the two-pass truncation loop of `LineString: Contains<Line>` must wrap around the ring start
+        if rng.chance(1, 12) {
+            let (w, h) = (rng.range(2, 5), rng.range(1, 3));
+            // rectangle (−1,0) … (w+1,h) with every lattice point of its sides as a vertex
+            let mut ring: Vec<(i64, i64)> = vec![];
+            for x in -1..=w { ring.push((x, 0)); }
+            for y in 0..=h - 1 { ring.push((w + 1, y)); }
+            for x in (0..=w + 1).rev() { ring.push((x, h)); }
+            for y in (1..=h).rev() { ring.push((-1, y)); }
+            let s = rng.below(ring.len() as u64) as usize;
+            ring.rotate_left(s);
+            if rng.chance(1, 2) { ring.reverse(); }
+            let first = ring[0];
+            ring.push(first);
+            let (sw, half) = (rng.chance(1, 2), 0.5);
+            let m = |x: f64, y: f64| if sw { Coord { x: y, y: x } } else { Coord { x, y } };
+            let lsg = Geometry::LineString(LineString(ring.iter().map(|&(x, y)| m(x as f64, y as f64)).collect()));
+            // along the bottom side y = 0
+            let x0 = rng.range(-1, w - 1);
+            let x1 = rng.range(x0 + 1, w);
+            let (a0, a1) = (x0 as f64 + if rng.chance(2, 3) { half } else { 0.0 }, x1 as f64 + if rng.chance(2, 3) { half } else { 0.0 });
+            let ln = if rng.chance(1, 2) { Line::new(m(a0, 0.0), m(a1, 0.0)) } else { Line::new(m(a1, 0.0), m(a0, 0.0)) };
+            let lg = if rng.chance(2, 3) { Geometry::Line(ln) } else { Geometry::LineString(LineString(vec![ln.start, ln.end])) };
+            let op = if rng.chance(1, 2) { "C02.pred" } else { "C02.cpred" };
+            return if rng.chance(2, 3) { format!("{} {} {}", op, proto::geom(&lsg), proto::geom(&lg)) }
+                   else { format!("{} {} {}", op, proto::geom(&lg), proto::geom(&lsg)) };
+        }
         // containment needs nested operands to be frequent: often derive B from A's own vertices
         let b = if rng.chance(1, 4) {
             use geo::algorithm::coords_iter::CoordsIter;
